@@ -62,8 +62,8 @@ Dec(n) == LET k == NDigits(n) IN [i \in 1..k |-> 48 + ((n \div P10[k - i + 1]) %
 
 (* value of a digit string, saturating at Huge (no 32-bit overflow inside TLC) *)
 Huge == 2000000000
-StripZeros(s) == LET nz == {i \in 1..Len(s) : s[i] # 48} IN
-                 IF nz = {} THEN <<>> ELSE SubSeq(s, CHOOSE i \in nz : \A j \in nz : i <= j, Len(s))
+StripZeros(s) == LET k == SelectInSeq(s, LAMBDA x : x # 48) IN
+                 IF k = 0 THEN <<>> ELSE SubSeq(s, k, Len(s))
 ToNat(s) == LET z == StripZeros(s) IN
             IF Len(z) > 10 \/ (Len(z) = 10 /\ z[1] >= 50) THEN Huge
             ELSE FoldLeft(LAMBDA acc, c : acc * 10 + (c - 48), 0, z)
